@@ -113,11 +113,15 @@ func (fc *fnCtx) staticCall(cs *callSite, callee *ssa.Function, bindings []*val)
 	if strings.HasPrefix(callee.Name(), "spec_") {
 		return fc.pureCall(callee, cs.args, fc.curH, fc.curR)
 	}
+	if tc := g.w.trustedExt[name]; tc != nil {
+		g.trusted["trusted contract: "+name] = true
+		return fc.applyContract(cs, callee, tc)
+	}
 	c := g.w.contractOf(callee)
 	if c != nil && !c.inline && bindings == nil {
 		return fc.applyContract(cs, callee, c)
 	}
-	if callee.Blocks != nil && fc.depth < maxInlineDepth && !fc.inChain(callee) && g.instrs < maxInstrs && (c == nil || !c.noinline) &&
+	if callee.Blocks != nil && fc.depth < g.maxDepth && !fc.inChain(callee) && g.instrs < maxInstrs && (c == nil || !c.noinline) &&
 		(strings.HasPrefix(pkgPathOf(callee), modulePath) || g.w.inlineExternal[name]) {
 		if g.lite && !touchesLocks(callee, 5, map[*ssa.Function]bool{}) {
 			return fc.havocCall(cs, false)
@@ -228,19 +232,7 @@ func (fc *fnCtx) builtin(cs *callSite, b *ssa.Builtin) *val {
 			et = sl.Elem()
 		}
 		es := slots(et)
-		if w, _, ok := intW(et); ok && w == 8 {
-			fc.copyRows([]string{"HB"}, d, s, n, 1)
-		} else if _, ok := isByteArray(et); ok {
-			fc.copyRows([]string{"HB"}, d, s, n, es)
-		} else {
-			var kinds []string
-			for _, hk := range g.heapKinds() {
-				if hk.name != "GL" {
-					kinds = append(kinds, hk.name)
-				}
-			}
-			fc.copyRows(kinds, d, s, n, es)
-		}
+		fc.copyRows(kindsOf(et), d, s, n, es)
 		return &val{k: kInt, w: 64, signed: true, t: []string{n}}
 	case "append":
 		return fc.appendBuiltin(cs)
@@ -321,18 +313,7 @@ func (fc *fnCtx) appendBuiltin(cs *callSite) *val {
 	ref := fc.alloc("app")
 	newCap := g.declare(g.freshName("appcap"), "(_ BitVec 64)")
 	g.assume(fmt.Sprintf("(and (bvsle %s %s) (bvsle %s (bvshl MAXLEN #x0000000000000001)))", newLen, newCap, newCap))
-	var kinds []string
-	if w, _, ok := intW(et); ok && w == 8 {
-		kinds = []string{"HB"}
-	} else if _, ok := isByteArray(et); ok {
-		kinds = []string{"HB"}
-	} else {
-		for _, hk := range g.heapKinds() {
-			if hk.name != "GL" {
-				kinds = append(kinds, hk.name)
-			}
-		}
-	}
+	kinds := kindsOf(et)
 	// in-place: dst = s[len(s):newLen]; fresh: dst0 = new[0:len(s)] <- s, then new[len(s):] <- t
 	dOff := fmt.Sprintf("(bvadd %s %s)", s.t[1], s.t[2])
 	if es != 1 {
@@ -703,13 +684,28 @@ func (fc *fnCtx) mergeReturns(ch *fnCtx, cs *callSite) *val {
 func (fc *fnCtx) applyContract(cs *callSite, callee *ssa.Function, c *contract) *val {
 	g := fc.g
 	key := fnKeyQ(callee)
-	g.assumedCon[key] = true
+	if strings.HasPrefix(pkgPathOf(callee), modulePath) {
+		g.assumedCon[key] = true
+	}
 	env := map[string]*val{}
-	for i, p := range callee.Params {
-		if i < len(cs.args) {
-			a := *cs.args[i]
-			a.ty = p.Type()
-			env[p.Name()] = &a
+	{
+		// parameter names from the signature (external functions have no ssa Params)
+		sig := callee.Signature
+		k := 0
+		if sig.Recv() != nil && k < len(cs.args) {
+			a := *cs.args[k]
+			a.ty = sig.Recv().Type()
+			env[sig.Recv().Name()] = &a
+			env["self"] = &a
+			k++
+		}
+		for i := 0; i < sig.Params().Len() && k < len(cs.args); i, k = i+1, k+1 {
+			a := *cs.args[k]
+			a.ty = sig.Params().At(i).Type()
+			if sig.Variadic() && i == sig.Params().Len()-1 {
+				a.ty = sig.Params().At(i).Type()
+			}
+			env[sig.Params().At(i).Name()] = &a
 		}
 	}
 	pre := &specCtx{fc: fc, g: g, fn: callee, args: env, h: fc.curH, oldH: fc.curH, guard: fc.curR}
@@ -1055,6 +1051,56 @@ func (fc *fnCtx) pureCall(fn *ssa.Function, args []*val, h heap, guard string) *
 					g.assume(eq)
 				}
 			}
+		}
+	}
+	return out
+}
+
+// kindsOf: the heap kinds that hold the scalars of a value of type t.
+func kindsOf(t types.Type) []string {
+	set := map[string]bool{}
+	var walk func(t types.Type)
+	walk = func(t types.Type) {
+		if w, _, ok := intW(t); ok {
+			if w == 8 {
+				set["HB"] = true
+			} else {
+				set["HW"] = true
+			}
+			return
+		}
+		if _, ok := isFloat(t); ok {
+			set["HW"] = true
+			return
+		}
+		switch u := t.Underlying().(type) {
+		case *types.Basic:
+			if u.Info()&types.IsBoolean != 0 {
+				set["HW"] = true
+			} else if u.Info()&types.IsString != 0 {
+				set["HSr"], set["HSo"], set["HSl"], set["HSc"] = true, true, true, true
+			} else {
+				set["HPr"], set["HPo"] = true, true
+			}
+		case *types.Pointer, *types.Map, *types.Chan, *types.Signature:
+			set["HPr"], set["HPo"] = true, true
+		case *types.Slice:
+			set["HSr"], set["HSo"], set["HSl"], set["HSc"] = true, true, true, true
+		case *types.Interface:
+			set["HIt"], set["HIr"], set["HIo"] = true, true, true
+		case *types.Array:
+			walk(u.Elem())
+		case *types.Struct:
+			for i := 0; i < u.NumFields(); i++ {
+				walk(u.Field(i).Type())
+			}
+		}
+	}
+	walk(t)
+	var out []string
+	for _, hk := range heapKindsAll {
+		if set[hk.name] {
+			out = append(out, hk.name)
 		}
 	}
 	return out
